@@ -3,7 +3,7 @@ trackers, the matching request for the Lean controller model (`c07.run`), the tr
 the property monitors.
 
 A *case* is a JSON-able dict
-  {"numbers": "Q"|"F", "dt", "t_start", "t_end", "u0", "eq": "one"|"time"|"lin"|"lint" (+"a"), "solver", "backend",
+  {"numbers": "Q"|"F", "dt", "t_start", "t_end", "u0", "eq": "one"|"time"|"lin"|"lint"|"hook" (+"a"), "solver", "backend",
    "jit": bool (numba backend: compiled, else the same source under NUMBA_DISABLE_JIT=1),
    "N": whole-range step count or None,
    "trackers": [{"kind": "callback"|"storage"|"data", "sched": {...}, "stops": [[call, "S"|"F", msg], ..]}]}
@@ -26,7 +26,9 @@ TIME_SHIFT = {"euler": 0.0, "implicit": 1.0, "runge-kutta": 0.5, "crank-nicolson
 # equations: u' = 1, u' = t (state-independent: the state counts steps / sums times) and the state-dependent
 # u' = a*u, u' = a*u + t (a solver whose own state - Adams-Bashforth's previous state, the implicit solvers'
 # fixed-point iterate - is disturbed by a tracker interrupt ends in a different state)
-AUTONOMOUS = ("one", "lin")
+# "hook": u' = 1 with a post-step hook that keeps a counter in `post_step_data` (another piece of stepper state that
+# must survive a tracker interrupt): `data += 1; state += a*data`
+AUTONOMOUS = ("one", "lin", "hook")
 STATE_DEPENDENT = ("lin", "lint")
 IMPLICIT_MAXITER, IMPLICIT_MAXERROR = 100, 1e-4  # defaults of ImplicitSolver / CrankNicolsonSolver
 
@@ -58,7 +60,7 @@ def classes():
 
         def evolution_rate(self, state, t=0):
             r = state.copy()
-            if self.kind == "one":
+            if self.kind in ("one", "hook"):
                 r.data[...] = 1.0
             elif self.kind == "time":
                 r.data[...] = t
@@ -72,7 +74,7 @@ def classes():
 
         def make_evolution_rate(self, state, backend):
             a = self.a
-            if self.kind == "one":
+            if self.kind in ("one", "hook"):
                 def rhs(arr, t):
                     return np.ones_like(arr)
             elif self.kind == "time":
@@ -87,6 +89,18 @@ def classes():
             else:
                 raise ValueError(self.kind)
             return rhs
+
+        def make_post_step_hook(self, state, backend="numpy"):
+            if self.kind != "hook":
+                raise NotImplementedError  # the solver then installs its no-op hook
+            a = self.a
+
+            def post_step_hook(state_data, t, post_step_data):
+                post_step_data += 1.0
+                state_data += a * post_step_data
+                return state_data, post_step_data
+
+            return post_step_hook, 0.0
 
     class OracleInterrupts(InterruptsBase):
         """adversarial schedule: prepared answers, one per call, `inf` afterwards"""
@@ -377,6 +391,8 @@ def model_request(case, mode, oracle_for=()):
     if eq == "time" and TIME_SHIFT.get(case["solver"], 0.0) != 0.0:
         req["eq"] = "timeshift"
         req["shift"] = enc(TIME_SHIFT[case["solver"]] * case["dt"])
+    if eq == "hook":
+        req["a"] = enc(case["a"])
     if eq in STATE_DEPENDENT:
         # the solver's own operations on u' = a*u (+ t): Model/StepMaps.lean
         req.update(a=enc(case["a"]), solver=case["solver"], cells=int(case.get("cells", 1)),
@@ -600,7 +616,7 @@ def geometric_answers_ok(s, log):
 def rate_fn(case):
     """the right-hand side on one cell, as `CountingPDE` computes it"""
     eq, a = case["eq"], case.get("a", 0.0)
-    if eq == "one":
+    if eq in ("one", "hook"):
         return lambda u, t: 1.0
     if eq == "time":
         return lambda u, t: t
@@ -637,6 +653,7 @@ def iterate_states(case, n):
     solver, cells = case["solver"], int(case.get("cells", 1))
     out = [u]
     prev = None
+    hook_data = 0.0
     for i in range(n):
         t = t0 + i * dt
         if solver == "euler":
@@ -664,6 +681,9 @@ def iterate_states(case, n):
             raise ValueError(solver)
         if u is None:
             break
+        if case["eq"] == "hook":
+            hook_data += 1.0
+            u = u + case["a"] * hook_data
         out.append(u)
     return out
 
@@ -783,7 +803,7 @@ def monitor_trackers(case, real):
         if not (abs(t - (t0 + n * dt)) <= tol) or not 0 <= n <= steps:
             bad.append(("tracker time is a simulation time t_start + n*dt", t, f"n={n}"))
         elif n >= len(states) or not state_matches_iterate(case, u, states[n], exact):
-            bad.append((f"state seen at t={t} is the state after n={n} steps", u,
+            bad.append(("state shown to a tracker at t_start + n*dt is the state after n steps", {"t": t, "n": n, "state": u},
                         states[n] if n < len(states) else "reference iteration does not converge"))
     for i, ev in enumerate(per):
         for (a, _), (b, _) in zip(ev, ev[1:]):
@@ -944,7 +964,7 @@ def monitor_exact(case, real, strict_exact=True):
             bad.append(("tracker time is an action time (t_start, t_end or a scheduled time)", t, "one of the schedules"))
         ref = case["u0"] + (t - t0)
         if case["eq"] == "one" and not (abs(u - ref) <= 1e-6 * max(1.0, abs(ref))):
-            bad.append((f"state seen at t={t} is the state of that time", u, ref))
+            bad.append(("state shown to a tracker is the state of that time", {"t": t, "state": u}, ref))
     for i, ev in enumerate(per):
         for a, b in zip(ev, ev[1:]):
             if not b > a:
@@ -1083,10 +1103,13 @@ def gen_equation(rng, numbers, dt, t0, t1, hist, state_dependent=0.5):
     (every fixed-step scheme is stable and the fixed-point iterations of the implicit solvers contract), `a`
     dyadic with few bits in dyadic mode; growing solutions only while a*T <= 3"""
     if rng.random() >= state_dependent:
-        eq = rng.choice(["one", "time"])
+        eq = rng.choice(["one", "time", "one", "time", "hook"])
         u0 = rng.choice([0.0, 0.0, 1.0, dyadic(rng, 0, 16, 3)]) if numbers == "Q" else rng.choice([0.0, 0.1, 1.0, -0.3, 2.5])
         hist("equation", eq)
-        return eq, 0.0, u0
+        a = 0.0
+        if eq == "hook":
+            a = rng.choice([0.5, 0.25, -0.125, 1.0, 0.0625]) if numbers == "Q" else rng.choice([0.1, 0.3, -0.05, 1.0])
+        return eq, a, u0
     eq = rng.choice(["lin", "lin", "lint"])
     if numbers == "Q":
         z = rng.choice([0.5, 0.5, 0.25, 0.375, 0.125, 0.4375, 0.0625, 0.3125])
